@@ -11,9 +11,28 @@ MUTS = [
 
 
 def prove(tier, seed):
-    from vt.pyvc.termproofs import prove_terms
+    from vt.pyvc.termproofs import merge, prove_terms
 
-    return prove_terms(PREDS, MUTS, tier, "c06", replay_clause="tol.semantics")
+    return merge(prove_terms(PREDS, MUTS, tier, "c06", replay_clause="tol.semantics"), prove_constructors())
+
+
+def prove_constructors():
+    """E1-array/bilinear: depolarizing, dephasing, reduction return their textbook Choi matrices and act by their textbook formulas (all d, all p)"""
+    from props import C06_bilinear as B
+    from vt import extract
+
+    recs = B.records() + B.lemmas()
+    for x in recs:
+        if x["status"] != "discharged" and x["function"] in B.REL:
+            fn = x["function"]
+            x["replay"] = [dict(clause=fn + ".formula", function=fn, input_class="%s/replay" % fn, params=(dict(d=dm, k=int(pv * 3) + 1, seed=0) if fn == "reduction" else dict(d=dm, p=pv, seed=0))) for dm in (2, 3) for pv in (0.3, 0.9)]
+    pl = B.planted()
+    per = {}
+    for x in recs:
+        if x.get("claim"):
+            per[x["function"]] = per.get(x["function"], 0) + 1
+    sc = {"planted_bugs_all_refuted": {"ok": pl["tried"] == pl["refuted"], "detail": pl}, "bilinear_nonzero_claim_obligations": {"ok": all(per.get(g, 0) > 0 for g in ("depolarizing", "dephasing", "reduction", "(lemma over contracts)")), "detail": per}}
+    return dict(records=recs, functions=[extract.Source(B.REL[g]).info(g) for g in ("depolarizing", "dephasing", "reduction")], instances=6, planted=pl, selfchecks=sc)
 
 
 def _perturbed(d, delta, seed):
